@@ -8,6 +8,11 @@
  *   MODE 2 (C08)  the two runs differ only in the stored contents of write-only variables:
  *                 no output byte may depend on them (non-interference).
  *
+ *   MODE 3 (C20)  concatenation: the input is two lines (the first L1 bytes are line 1); run A feeds line 2 alone to a
+ *                 fresh parser, run B feeds line 1 then line 2 to one parser: what B emits after line 1's answer
+ *                 (= after the first byte of line 2 has been consumed) must equal A's output, and the handler
+ *                 invocations / variable effects of line 2 must be the same.
+ *
  * Compared: the complete output byte stream, the handler log (command, kind), what the write handler
  * was shown, variable callback counts and the final variable values.
  */
@@ -17,7 +22,17 @@
 #ifndef R
 #define R 2
 #endif
+#ifndef L1
+#define L1 0            /* MODE 3: length of the first line */
+#endif
 #define NH 4
+#if MODE == 3
+#define STATELESS_CODES
+#define SYM_NAMES 0      /* fixed names +A +B +C: the concatenation runs are long (two lines, two lanes) */
+#ifndef OUTMAX
+#define OUTMAX 48
+#endif
+#endif
 #define SCEN_EXTRA unsigned char v2[2];
 static void twin_reset(void);
 #define WORLD_RESET_EXTRA twin_reset()
@@ -65,15 +80,69 @@ static void scen_run(void)
 #if MODE == 1
         for (i = 0; i < N; i++) {
                 ASSUME(S.sr[i] <= 1 && S.sw[i] <= 1);
-                if (!S.sr[i]) zr++;
-                if (!S.sw[i]) zw++;
+                if (S.sr[i]) zr++;
+                if (S.sw[i]) zw++;
         }
         ASSUME(zr <= R && zw <= R);
 #endif
         (void)zr; (void)zw;
 
+#if MODE == 3
+        {
+                /* run B first: both lines on one parser; remember how much had been emitted / logged when line 2's first byte
+                 * was consumed, and the variable values line 1 left behind */
+                int k2;
+                unsigned mark_out = 0, mark_hl = 0, marked = 0, b_out_n, b_hl_n;
+                uint8_t v0_mid = 0, v1_mid = 0, b_v0, b_v1;
+                unsigned vw_mid[2] = { 0, 0 }, vr_mid[2] = { 0, 0 }, b_vw[2], b_vr[2];
+                unsigned char b_hl_cmd[NH], b_hl_kind[NH];
+                ASSUME(S.in[L1 - 1] == '\n');
+                world_build();
+                rb = CAT_STATUS_BUSY;
+                for (k2 = 0; k2 < N; k2++) {
+                        W.k = k2;
+                        if (!marked && W.in_pos >= L1 + 1) {
+                                /* the first byte of line 2 has just been consumed (it cannot cause output by itself): by C01 everything
+                                 * emitted so far is the answer to line 1 */
+                                marked = 1; mark_out = W.out_n; mark_hl = W.hl_n; v0_mid = G_v0; v1_mid = G_v1;
+                                vw_mid[0] = W.vw_n[0]; vw_mid[1] = W.vw_n[1]; vr_mid[0] = W.vr_n[0]; vr_mid[1] = W.vr_n[1];
+                        }
+                        rb = hinted_service(1, k2, &W.at);
+                }
+                CHK(C20, marked, "line 1 was never finished");
+                CHK(C20, rb == CAT_STATUS_OK && W.in_pos == S.in_len && W.u_state == 0, "both lines completely processed within the step bound");
+                b_out_n = W.out_n; b_hl_n = W.hl_n; b_v0 = G_v0; b_v1 = G_v1;
+                for (i = 0; i < 2; i++) { b_vw[i] = W.vw_n[i]; b_vr[i] = W.vr_n[i]; }
+                for (i = 0; i < NH; i++) { b_hl_cmd[i] = W.hl_cmd[i]; b_hl_kind[i] = W.hl_kind[i]; }
+                for (i = 0; i < OUTMAX; i++) A_out[i] = G_out[i];
+
+                /* run A: line 2 alone on a fresh parser, variables as line 1 left them */
+                world_clear_run();
+                world_build();
+                G_v0 = v0_mid; G_v1 = v1_mid;
+                W.in_pos = L1;
+                A.last = run_lane(0, N);
+                CHK(C20, A.last == CAT_STATUS_OK && W.in_pos == S.in_len && W.u_state == 0, "line 2 alone completely processed within the step bound");
+                CHK(C20, b_out_n == mark_out + W.out_n, "answer to line 2 after line 1 has a different length than the answer to line 2 alone");
+                for (i = 0; i < OUTMAX; i++)
+                        if (i < W.out_n && mark_out + i < OUTMAX)
+                                CHK(C20, A_out[mark_out + i] == G_out[i], "answer to line 2 depends on the earlier line");
+                CHK(C20, b_out_n <= OUTMAX, "output log overflow");
+                CHK(C20, b_hl_n == mark_hl + W.hl_n, "line 2 invokes a different number of handlers after line 1");
+                for (i = 0; i < NH; i++)
+                        if (i < W.hl_n && mark_hl + i < NH)
+                                CHK(C20, b_hl_cmd[mark_hl + i] == W.hl_cmd[i] && b_hl_kind[mark_hl + i] == W.hl_kind[i], "line 2 invokes different handlers after line 1");
+                CHK(C20, G_v0 == b_v0 && G_v1 == b_v1, "line 2 leaves different variable values after line 1");
+                CHK(C20, b_vw[0] - vw_mid[0] == W.vw_n[0] && b_vw[1] - vw_mid[1] == W.vw_n[1] && b_vr[0] - vr_mid[0] == W.vr_n[0] && b_vr[1] - vr_mid[1] == W.vr_n[1],
+                    "line 2 runs variable callbacks a different number of times after line 1");
+                WITNESS(W.hl_n >= 1 && mark_hl == 0, "line2-handler-ran-line1-none");
+                WITNESS(mark_out >= 4 && W.out_n >= 4, "both-lines-answered");
+                return;
+        }
+#endif
         /* ---- run A ---------------------------------------------------------------------------- */
         world_build();
+
         A.last = run_lane(0, N - 2 * R * (MODE == 1));
         A.out_n = W.out_n; A.hl_n = W.hl_n; A.units = W.units; A.malformed = W.malformed; A.u_state = W.u_state;
         for (i = 0; i < NH; i++) { A.hl_cmd[i] = W.hl_cmd[i]; A.hl_kind[i] = W.hl_kind[i]; }
@@ -141,9 +210,9 @@ static void scen_sample(void)
                 if (shape[p] == 'n') ni++;
         }
         S.in_len = L;
-        for (p = 0; p < N; p++) S.sr[p] = S.sw[p] = 1;
-        left = rnd(R + 1); while (left--) S.sr[rnd(N)] = 0;
-        left = rnd(R + 1); while (left--) S.sw[rnd(N)] = 0;
+        for (p = 0; p < N; p++) S.sr[p] = S.sw[p] = 0;
+        left = rnd(R + 1); while (left--) S.sr[rnd(N)] = 1;
+        left = rnd(R + 1); while (left--) S.sw[rnd(N)] = 1;
         S.v2[0] = (unsigned char)rnd(256); S.v2[1] = (unsigned char)rnd(256);
         if (MODE == 2 && rnd(2)) S.vacc[rnd(2)] = 2;
 }
